@@ -313,11 +313,10 @@ class Repo:
         trees = {k: v[3] for k, v in parsed.items()}
         tag_sources({k: (v[1], v[3]) for k, v in parsed.items()})
         self.inlined = inline_new_helpers(trees)  # extracted helpers go back into their callers
+        from .inline import continue_guards_to_conditionals, lower_conditional_values
+        self.unguarded = continue_guards_to_conditionals(trees)  # `if c: continue` + rest: the conditional block
         self.unrolled = unroll_object_loops(trees)  # loops over a literal tuple of objects: one copy of the body per object
         self.comprehended = loops_to_comprehensions(trees)  # list-building loops: the comprehension
-        from .inline import continue_guards_to_conditionals
-        self.unguarded = continue_guards_to_conditionals(trees)  # `if c: continue` + rest: the conditional block
-        from .inline import lower_conditional_values
         self.lowered = lower_conditional_values(trees)  # `return a if c else b`: the if / else statement
         touched = {c.split(":")[0] for _, c, _ in self.inlined} | {c.split(":")[0] for c, _ in self.unrolled + self.comprehended + self.unguarded + self.lowered}
         for modname, (path, rel, src, tree) in parsed.items():
